@@ -26,7 +26,7 @@ def strategy(tier):
   return st.one_of(st.fixed_dictionaries({'h': O.history('general', 1, n)}),
                    st.fixed_dictionaries({'h': O.history('schema', 1, n)}),
                    st.fixed_dictionaries({'h': O.history('typechange', 1, n)}),
-                   st.fixed_dictionaries({'h': O.history('triggers', 2, n, max_ops=3)}))
+                   st.fixed_dictionaries({'h': O.history('triggers', 2, n, max_ops=3, focus='triggers')}))
 
 
 def run_case(case):
